@@ -170,6 +170,29 @@ def check_iso_update(sc):
     return (dev, lim) if (not np.all(np.isfinite(tb)) or dev > lim) else None
 
 
+def grazing_scenes(T=260.0):
+    """two loss-free layers whose density contrast refracts one Gauss node of the denser layer to within 0.6 degree of the horizontal in the
+    lighter one (sine 0.99995), lighter layer above or below: a stream that barely exists is a stream"""
+    from smrt.permittivity.generic_mixing_formula import polder_van_santen
+    nidx = lambda rho: float(np.real(np.sqrt(polder_van_santen(rho / 916.7, 1.0, 3.18))))
+    out = []
+    for nmax, k, flip in ((16, 11, False), (16, 13, True), (32, 28, False), (32, 29, True)):
+        x, _ = np.polynomial.legendre.leggauss(2 * nmax)
+        mu = np.sort(x[x > 0])[::-1]
+        n1 = nidx(350.0) * np.sqrt(1 - mu[k] ** 2) / 0.99995
+        lo, hi = 20.0, 350.0
+        for _ in range(80):
+            mid = 0.5 * (lo + hi)
+            lo, hi = (mid, hi) if nidx(mid) < n1 else (lo, mid)
+        d = round(0.5 * (lo + hi), 6)
+        dens = [350.0, d] if flip else [d, 350.0]
+        out.append(dict(thickness=[0.3, 0.3], density=dens, temperature=[T, T], microstructure="exponential", frequency=37e9,
+                        micro=dict(corr_length=[2e-4, 2e-4]), ice_permittivity=[3.18, 0.0],
+                        substrate=dict(kind="soil_wegmuller", T=T, eps=[8.0, 0.0], params=dict(roughness_rms=0.01)),
+                        atmosphere=dict(tb_down=T, tb_up=0.0, trans=1.0), emmodel="iba", nmax=nmax, assembly=0))
+    return out
+
+
 def iso_scene(rng, em, ms, nlayer=None, lossless=None, substrate="random"):
     T = round(float(rng.uniform(200, 272)), 2)
     lossless = bool(rng.random() < 0.5) if lossless is None else lossless
@@ -232,6 +255,7 @@ def oracle(ctx, hints, effort):
         todo.append(dict(thickness=ths, density=[320.0] * len(ths), temperature=[T] * len(ths), microstructure="exponential", frequency=f,
                          micro=dict(corr_length=[cl] * len(ths)), substrate=dict(kind="soil_wegmuller", T=T, eps=[8.0, 1.5], params=dict(roughness_rms=0.01)),
                          atmosphere=dict(tb_down=T, tb_up=0.0, trans=1.0), emmodel="iba", nmax=16, assembly=0))
+    todo += grazing_scenes(round(float(rng.uniform(240, 270)), 2))
     # other ways the same scene reaches the solver: a list of sensors paired with a list of media; temperatures set through update()
     for j, sc in enumerate([t for t in todo if "emmodel" in t and t.get("ice_permittivity") is None and len(t["thickness"]) == 1
                             and "interface" not in t][:2 if effort == "routine" else 10]):
